@@ -195,8 +195,12 @@ func c18run(cs c18case) (sig, detail string) {
 		retries := 0
 		for {
 			steps++
-			if steps > 20 {
-				sig, detail = "iteration-does-not-terminate", fmt.Sprintf("still at cursor %s after 20 calls", cursor)
+			limit := 20 // (the chains of the ordinary cases have at most 2 cursors per node)
+			for _, ch := range cs.Chains {
+				limit += len(ch)
+			}
+			if steps > limit {
+				sig, detail = "iteration-does-not-terminate", fmt.Sprintf("still at cursor %s after %d calls", cursor, limit)
 				return
 			}
 			if cs.Refresh && steps > 1 {
@@ -328,6 +332,20 @@ func c18scan(env sched.Env) *sched.Report {
 				try(c18case{Chains: [][]string{a, b, c}})
 			}
 		}
+	}
+	// long iterations: 140 (thorough: also 300) calls per node, nearly all of them answered with an empty batch
+	// (MATCH over a big node with few matching keys)
+	for _, l := range []int{140, 300} {
+		if l == 300 && env.Tier != "thorough" {
+			continue
+		}
+		var long []string
+		for i := 1; i <= l; i++ {
+			long = append(long, strconv.Itoa(i*3))
+		}
+		try(c18case{Chains: [][]string{long}})
+		try(c18case{Chains: [][]string{long, {"5"}}})
+		try(c18case{Chains: [][]string{{}, long}})
 	}
 	// a refused connect to the node a call addresses (the client repeats the call)
 	for _, a := range shapes[:6] {
